@@ -95,6 +95,13 @@ fn domain() -> Dom {
         },
     ));
     elems.push((
+        "FixedArray(a,2^64+3)".into(),
+        TE::FixedArray {
+            element: a,
+            length:  (ethnum::U256::ONE << 64) + ethnum::U256::new(3),
+        },
+    ));
+    elems.push((
         "Conflict".into(),
         TE::conflict(TE::bool(), TE::address(), "seed conflict"),
     ));
